@@ -251,4 +251,7 @@ func runC09(e *Engine, r *Report) {
 	// ---- read-side errors propagate
 	st := e.CheckErrDiscipline(r, errScope{pkgs: map[string]bool{"internal/logdb": true}, files: map[string]bool{}}, c10Accept)
 	r.floor("ERR-calls", st.Calls, 80)
+	ruleTanIndexState(e, r)
+	ruleTanFileInUse(e, r)
+	ruleLastBatchCache(e, r)
 }
